@@ -291,8 +291,10 @@ def r3(ctx):
     downs = [c for c in ctx.prog.calls_in(cs.node) if u(c.func) == "self._sift_down"]
     ok = (None if not ups else (len(ups) == 1 and len(downs) == 1 and u(ups[0].args[0]) == "position" and u(downs[0].args[0]) == "position"))
     if ok:
-        gu = guard_atoms(ccfg, ccfg.node_containing(ups[0]))
-        gd = guard_atoms(ccfg, ccfg.node_containing(downs[0]))
+        # a flag local that holds the comparison stands for it (the comparison reads the two score vectors, which nothing
+        # changes before the sift)
+        gu = util.expanded_guard_atoms(ccfg, cs.node, ccfg.node_containing(ups[0]), keep=("c_old_score", "position"))
+        gd = util.expanded_guard_atoms(ccfg, cs.node, ccfg.node_containing(downs[0]), keep=("c_old_score", "position"))
         t = "_vector_score_lower(c_old_score, %s)" % new_p
         ok = (t, True) in gu and (t, False) in gd
     ctx.ob(cs.qual, "sift-direction-follows-score-change", ok, cs.loc(), "an increased score sifts up, anything else sifts down" if ok else "sift direction is not `old < new -> up else down`")
